@@ -37,6 +37,7 @@ type caseStats struct {
 	touchedVal, touchedAcc                 bool
 	finaliseBeforeNested                   bool
 	nestedReverts                          int
+	rootsSkipped                           int // reverts whose Copy-roots were not compared (see goSide.roots)
 	guardFail, modelSteps                  int // model steps outside / inside+outside the theorems' guard (Lean `opOKB`)
 }
 
@@ -122,6 +123,20 @@ func runCase(ops []string, drv *vh.Driver) (*failure, caseStats, error) {
 				}
 			}
 		}
+		if f[0] == "vu" && (f[4] == "=" || f[5] == "=") {
+			// "=" keeps the validator's current token / stake (status- or role-only updates)
+			cur := g.st.GetValidatorByMainAddr(valAddr(atoi(f[1])))
+			if cur == nil {
+				cs.skipped++
+				continue
+			}
+			if f[4] == "=" {
+				gf[4], lf[4] = cur.Token.String(), cur.Token.String()
+			}
+			if f[5] == "=" {
+				gf[5], lf[5] = cur.Stake.String(), cur.Stake.String()
+			}
+		}
 		if f[0] == "rwx" {
 			lf[0] = "rw"
 		}
@@ -197,7 +212,9 @@ func runCase(ops []string, drv *vh.Driver) (*failure, caseStats, error) {
 				return &failure{"oracle", fmt.Sprintf("state after RevertToSnapshot(%d) differs from the state when the snapshot was taken: %s", id, firstDiffSection(project(gd), project(rec.dump))), i,
 					strings.Fields(firstDiffSection(project(gd), project(rec.dump)))[0]}, cs, nil
 			}
-			if rt := g.roots(); rt != rec.roots {
+			if rt := g.roots(); rt == rootsUnstable || rec.roots == rootsUnstable {
+				cs.rootsSkipped++
+			} else if rt != rec.roots {
 				return &failure{"oracle", fmt.Sprintf("roots of a Copy after RevertToSnapshot(%d) = %s, at snapshot time = %s", id, rt, rec.roots), i, "roots"}, cs, nil
 			}
 		}
@@ -332,7 +349,13 @@ func (g *gen) valOp() {
 	case 0:
 		g.emit(fmt.Sprintf("vc %d %d %d %s %s %d", g.val(), 1+r.Intn(3), r.Intn(2), g.stakeAmt(), g.stakeAmt(), 1000+r.Intn(3)))
 	case 1:
-		g.emit(fmt.Sprintf("vu %d %d %d %s %s %d", g.val(), 1+r.Intn(3), r.Intn(2), g.stakeAmt(), g.stakeAmt(), 1000+r.Intn(3)))
+		tok, stk := g.stakeAmt(), g.stakeAmt()
+		if r.Chance(40) { // status-/role-/commission-only update: token and stake stay as they are
+			tok, stk = "=", "="
+		} else if r.Chance(15) {
+			stk = "="
+		}
+		g.emit(fmt.Sprintf("vu %d %d %d %s %s %d", g.val(), 1+r.Intn(3), r.Intn(2), tok, stk, 1000+r.Intn(3)))
 	case 2:
 		// RemoveValidator is followed by a second statistics decrement at IntermediateRoot (deleteValidator),
 		// so it is only generated inside a frame that is reverted, once per root interval
@@ -580,14 +603,14 @@ func run(c *vh.Ctx) error {
 			res.Fail("corpus", "", "corpus witness fails again: "+fn+": "+f.what, fn)
 		}
 	}
-	n := c.N(2500, 40000)
+	n := c.N(6000, 60000)
 	if c.Search {
 		n *= 2
 	}
 	if v, err := strconv.Atoi(os.Getenv("VERIF_C09_N")); err == nil && v > 0 {
 		n = v // development aid only; ./check never sets it
 	}
-	totalOps, totalRev, nested, crashes, guardFail, modelSteps := 0, 0, 0, 0, 0, 0
+	totalOps, totalRev, nested, crashes, guardFail, modelSteps, rootsSkipped := 0, 0, 0, 0, 0, 0, 0
 	for i := 0; i < n; i++ {
 		r := c.R.Fork()
 		flavour := []string{"plain", "deleg", "ripemd", "malformed"}[r.Weighted([]int{70, 12, 5, 13})]
@@ -616,6 +639,7 @@ func run(c *vh.Ctx) error {
 			res.Dist("cases-with-a-step-outside-the-theorem-guard-" + flavour)
 		}
 		totalRev += cs.reverts
+		rootsSkipped += cs.rootsSkipped
 		nested += cs.nestedReverts
 		if drv != nil {
 			res.TracesVsImpl++
@@ -635,6 +659,7 @@ func run(c *vh.Ctx) error {
 	res.DistN("model-steps-outside-the-theorem-guard", guardFail)
 	res.DistN("reverts-checked-by-oracle", totalRev)
 	res.DistN("reverts-at-depth>=2", nested)
+	res.DistN("reverts-without-root-comparison(removed-validator-pending)", rootsSkipped)
 	// ---- probes of the open known findings
 	for _, p := range probes {
 		f, _, err := runCase(p.ops, nil)
